@@ -664,4 +664,177 @@ MUTANTS += [
      "expect": [("C01", "C01|R1")]},
 ]
 
+MUTANTS += [
+    {"name": "c10-skip-checksum",
+     "edits": [("src/wal/storage.rs",
+                """        if actual != expected {
+            return Err(WalError::ReplayChecksumMismatch { version, segment_id, expected, actual });
+        }
+""",
+                """        if actual != expected {
+            tracing::warn!(version, segment_id, "checksum mismatch in WAL entry");
+        }
+""")],
+     "expect": [("C10", "C10|R1")]},
+    {"name": "c10-hash-of-header",
+     "edits": [("src/wal/storage.rs",
+                """        let actual = calculate_blob_hash(&op_data);""",
+                """        let actual = calculate_blob_hash(&header);""")],
+     "expect": [("C10", "C10|R1")]},
+    {"name": "c10-short-payload-ends-log",
+     "edits": [("src/wal/storage.rs",
+                """        self.file
+            .read_exact(&mut op_data)
+            .map_err(|e| replay_io(WalReplayIoStep::ReadOpData, e))?;
+""",
+                """        if let Err(e) = self.file.read_exact(&mut op_data) {
+            if e.kind() == ErrorKind::UnexpectedEof {
+                return Ok(None);
+            }
+            return Err(replay_io(WalReplayIoStep::ReadOpData, e));
+        }
+""")],
+     "expect": [("C10", "C10|R2")]},
+    {"name": "c10-iterator-ends-on-error",
+     "edits": [("src/wal/storage.rs",
+                """            Err(e) => Some(Err(e)),""",
+                """            Err(e) => {
+                tracing::error!("WAL read error: {e}");
+                None
+            }""")],
+     "expect": [("C10", "C10|R3")]},
+    {"name": "c10-replay-stops-quietly",
+     "edits": [("src/wal/replay.rs",
+                """                let entry = entry?;""",
+                """                let Ok(entry) = entry else {
+                    break;
+                };""")],
+     "expect": [("C10", "C10|R3")]},
+    {"name": "c10-apply-before-key-conversion",
+     "edits": [("src/wal/replay.rs",
+                """                let op = WalOp::from_raw(raw).map_err(|e| WalError::ReplayConvertWalOp {
+                    version: entry.version,
+                    segment_id: seg.id,
+                    source: e,
+                })?;
+
+                apply_op_fn(op);""",
+                """                let Ok(op) = WalOp::from_raw(raw) else {
+                    continue;
+                };
+
+                apply_op_fn(op);""")],
+     "expect": [("C02", "C02|R6")]},
+    {"name": "c14-ignore-unlink-error",
+     "edits": [("src/cas_manager.rs",
+                """            match std::fs::remove_file(&file_path) {
+                Ok(_) => {""",
+                """            let _ = std::fs::remove_file(&file_path);
+            match Ok::<(), std::io::Error>(()) {
+                Ok(_) => {""")],
+     "expect": [("C14", "C14|R1")]},
+    {"name": "c14-unwrap-segment-open",
+     "edits": [("src/wal/storage.rs",
+                """        let file =
+            OpenOptions::new().create(true).append(true).open(&path).map_err(|e| WalError::Io {
+                operation: WalIoOperation::OpenSegmentWrite,
+                path: Some(path),
+                source: e,
+            })?;""",
+                """        let file = OpenOptions::new().create(true).append(true).open(&path).unwrap();""")],
+     "expect": [("C14", "C14|R2")]},
+    {"name": "c14-apply-despite-append-failure",
+     "edits": [("src/index/manager.rs",
+                """        let append_info = wal.append_op(&serialized)?;
+
+        let unreferenced = state.apply_logical_op(logical_op).expect("Index is corrupted");
+""",
+                """        let appended = wal.append_op(&serialized);
+
+        let unreferenced = state.apply_logical_op(logical_op).expect("Index is corrupted");
+        let append_info = appended?;
+""")],
+     "expect": [("C14", "C14|R3")]},
+    {"name": "c14-version-rolled-back-on-error",
+     "edits": [("src/wal/manager.rs",
+                """        writer.write_entry(version, op_hash, op_data)?;
+""",
+                """        if let Err(e) = writer.write_entry(version, op_hash, op_data) {
+            self.next_op_version = version;
+            return Err(e);
+        }
+""")],
+     "expect": [("C14", "C14|R6")]},
+    {"name": "c14-ignore-snapshot-error",
+     "edits": [("src/index/manager.rs",
+                """        let serialized_len = IndexStatePersister::new(&self.paths).save(snapshot)?;""",
+                """        let serialized_len = IndexStatePersister::new(&self.paths).save(snapshot).unwrap_or(0);""")],
+     "expect": [("C09", "C09|R4"), ("C03", "C03|R2")]},
+    {"name": "c16-preallocate-from-input",
+     "edits": [("src/serialization.rs",
+                """            let mut keys_bytes = Vec::new();
+            for _ in 0..num_keys {""",
+                """            let mut keys_bytes = Vec::with_capacity(num_keys);
+            for _ in 0..num_keys {""")],
+     "expect": [("C16", "C16|R2")]},
+    {"name": "c16-big-endian-decode",
+     "edits": [("src/types.rs",
+                """                Self::Bytes::try_from(bytes).map(<$ty>::from_le_bytes).ok()""",
+                """                Self::Bytes::try_from(bytes).map(<$ty>::from_be_bytes).ok()""")],
+     "expect": [("C16", "C16|R5")]},
+    {"name": "c16-snapshot-size-before-hash",
+     "edits": [("src/serialization.rs",
+                """        // write hash (always 32 bytes)
+        result.extend_from_slice(item.blob_hash.as_bytes());
+
+        // write data size (8 bytes, LE)
+        result.extend_from_slice(&item.blob_size.to_le_bytes());""",
+                """        // write data size (8 bytes, LE)
+        result.extend_from_slice(&item.blob_size.to_le_bytes());
+
+        // write hash (always 32 bytes)
+        result.extend_from_slice(item.blob_hash.as_bytes());""")],
+     "expect": [("C16", "C16|R3")]},
+    {"name": "c16-tags-swapped-in-encoder",
+     "edits": [("src/serialization.rs",
+                """            // variant tag
+            result.push(0);
+
+            // key length and bytes""",
+                """            // variant tag
+            result.push(1);
+
+            // key length and bytes"""),
+               ("src/serialization.rs",
+                """            // variant tag
+            result.push(1);
+
+            // serialize the keys""",
+                """            // variant tag
+            result.push(0);
+
+            // serialize the keys""")],
+     "expect": [("C16", "C16|R4")]},
+    {"name": "c16-unchecked-index-in-decoder",
+     "edits": [("src/serialization.rs",
+                """    let (value, rest) =
+        bytes.split_first().ok_or(SerializationError::UnexpectedEof { parsing_context })?;
+    *bytes = rest;
+    Ok(*value)""",
+                """    let _ = parsing_context;
+    let value = bytes[0];
+    *bytes = &bytes[1..];
+    Ok(value)""")],
+     "expect": [("C16", "C16|R1")]},
+    {"name": "c16-key-len-u16",
+     "edits": [("src/serialization.rs",
+                """            // key length and bytes
+            let key_len = key_bytes.len() as u32;
+            result.extend_from_slice(&key_len.to_le_bytes());""",
+                """            // key length and bytes
+            let key_len = key_bytes.len() as u16;
+            result.extend_from_slice(&key_len.to_le_bytes());""")],
+     "expect": [("C16", "C16|R3")]},
+]
+
 BENIGN = []
